@@ -44,7 +44,8 @@ Execution model of ``VirtualParallel``
 * every ``(func, args, kwargs)`` job is executed exactly once, in the harness
   process, in *delivery order* (``mode="shared"``: worst case for stale per-process
   state) or each in a fresh ``fork`` of the harness process (``mode="isolated"``: the
-  "as many workers as jobs" extreme);
+  "as many workers as jobs" extreme; jobs of nested sites stay inside their parent
+  job's fork);
 * with ``pickle=True`` (default) the whole task crosses ``cloudpickle.dumps/loads``
   when the site is opened and its result crosses it again, as with loky: a job that
   mutates its argument does not leak to the caller, unpicklable things fail.
@@ -540,7 +541,8 @@ def installed(schedule: Schedule | None = None, n_jobs: int | None = None):
 
 
 def real_backend(schedule: Schedule | None = None, n_jobs: int | None = None,
-                 step: float = DEFAULT_STEP, batch_size=1, lead: float | None = None):
+                 step: float = DEFAULT_STEP, batch_size=1, lead: float | None = None,
+                 force: str = "all"):
     """Like ``installed`` but the jobs run on the REAL joblib backend (loky), each
     wrapped so that it finishes ``(rank in the schedule + 1) * step`` seconds after a
     start signal common to the site (see ``forced_offsets``), which forces the schedule's
@@ -548,9 +550,16 @@ def real_backend(schedule: Schedule | None = None, n_jobs: int | None = None,
     The completion order actually measured (worker-side monotonic timestamps) is put
     in ``SiteRecord.completed`` / ``.achieved``.  ``batch_size=1`` keeps joblib's
     auto-batching from gluing jobs together (pass "auto" for joblib's default); ``lead``
-    (default: one step) is the time between opening a site and its start signal T0."""
+    (default: one step) is the time between opening a site and its start signal T0.
+    ``force="all"`` forces every site (sites without a spec: submission order);
+    ``force="listed"`` forces only the sites named in ``schedule.per_site`` and lets
+    all other sites run free (whole-mapper runs with many sites: only the perturbed
+    site pays the sleeps)."""
+    if force not in ("all", "listed"):
+        raise ValueError(f"force must be 'all' or 'listed', not {force!r}")
     return _install(RealParallel, schedule, n_jobs,
-                    {"step": step, "batch_size": batch_size, "lead": step if lead is None else lead})
+                    {"step": step, "batch_size": batch_size, "lead": step if lead is None else lead,
+                     "force": force})
 
 
 # --------------------------------------------------------------------------
@@ -662,7 +671,8 @@ class VirtualParallel:
         rec.executed.append(idx)
         sched._depth += 1
         try:
-            if sched.mode == "isolated" and parallel_backend:
+            if sched.mode == "isolated" and parallel_backend and not rec.nested:
+                # (a site opened inside a job already runs in that job's fork)
                 return _run_isolated(func, args, kwargs)  # result crossed a pickle boundary
             res = func(*args, **kwargs)
         finally:
@@ -790,7 +800,8 @@ class RealParallel:
         # on the real backend the *completion* order can be forced on ordered sites too
         prefix = sched.resolve(rec.seq, n, jobs, has_menu=parallel_backend and not rec.nested)
         order = choices_to_order(prefix, n)
-        if step and parallel_backend and n:
+        listed = opts.get("force", "all") == "all" or (rec.seq is not None and rec.seq in sched.per_site)
+        if step and parallel_backend and n and listed:
             offs = forced_offsets(order, joblib.effective_n_jobs(self.n_jobs), step)
             t0 = time.monotonic() + opts.get("lead", step)  # common start signal, after dispatch
             deadlines = [t0 + o for o in offs]
@@ -826,11 +837,12 @@ class RealParallel:
 
 def conformance_run(fn: Callable[[], Any], schedule: Schedule, *, n_jobs: int | None = None,
                     step: float = DEFAULT_STEP, retries: int = 2,
-                    equal: Callable[[Any, Any], bool] | None = None) -> dict:
+                    equal: Callable[[Any, Any], bool] | None = None, force: str = "all") -> dict:
     """Run ``fn()`` (which drives accelforge and consumes any generator it gets) once
     under ``installed(schedule)`` and once under ``real_backend(schedule, step)`` and
     compare.  If the real workers did not complete in the intended order (timing
-    noise) the real run is repeated with a doubled step, ``retries`` times.
+    noise) the real run is repeated with a doubled step, ``retries`` times.  ``force``:
+    see ``real_backend``.
 
     Returns {"virtual", "real": fn's values (or "raise:..." strings), "equal",
     "achieved": the real completion order was the schedule's at every site,
@@ -857,7 +869,7 @@ def conformance_run(fn: Callable[[], Any], schedule: Schedule, *, n_jobs: int | 
         attempts += 1
         sr = schedule.clone()
         del raised[:]
-        with real_backend(sr, n_jobs, step):
+        with real_backend(sr, n_jobs, step, force=force):
             r = call()
         forced = [x for x in sr.trace if x.intended is not None]
         achieved = all(x.achieved for x in forced)
